@@ -404,6 +404,16 @@ impl ConsumerGroup {
 
 #[cfg(feature = "verif")]
 impl ConsumerGroup {
+    /// Signed nanoseconds since the last delivery of every pending entry (read-only accessor).
+    pub fn verif_pending_ages(&self) -> Vec<((u64, u64), i128)> {
+        let now = SystemTime::now();
+        let pending = match self.pending.try_read() { Ok(p) => p, Err(_) => return Vec::new() };
+        pending.entries_by_id.iter().map(|(id, e)| {
+            let age = match now.duration_since(e.last_delivery) { Ok(d) => d.as_nanos() as i128, Err(e) => -(e.duration().as_nanos() as i128) };
+            ((id.millis(), id.seq()), age)
+        }).collect()
+    }
+
     /// Read-only consistency check of the pending indexes and counters. Returns the pending
     /// set as (id, consumer, delivery_count) in id order, the per-consumer counters and the
     /// last-delivered cursor.
